@@ -25,6 +25,8 @@ func runStructural(ld *Loaded, sf *SpecFile, prop string) []StructObl {
 		return writeSiteFrame(ld)
 	case "C13":
 		return listPushSites(ld)
+	case "C20":
+		return lockDiscipline(ld, sf)
 	}
 	return nil
 }
